@@ -54,6 +54,9 @@ def run(ctx):
     ctx.check(label_level and not flat, "R5", "suffix-match-on-whole-labels", ctx.where(b),
               "the comparison must be label by label (label-typed operations: %s; flattening calls: %s)" % (label_level, flat or "none"))
 
+    # ---------------- R6 a name shorter than the suffix never matches
+    _r6(ctx, ew)
+
     # ---------------- R2 selection loop
     h = "erbium::dns::router::DnsRouteHandler::handle_query"
     if h not in P.bodies:
@@ -64,6 +67,23 @@ def run(ctx):
     T = terms(P, body)
     cfg = cfg_of(body)
     ews = [(bb, tm) for bb, tm in body.calls() if callee_name(tm) == ew]
+    if not ews:
+        # the test may have moved into a closure handed to an iterator adaptor
+        for cb in P.family(body.id):
+            if cb.id == body.id:
+                continue
+            if any(callee_name(tm) == ew for _, tm in cb.calls()):
+                users = []
+                for bb, tm in body.calls():
+                    Tm = terms(P, body)
+                    if any(y[0] == "agg" and y[1] == "closure:" + cb.id for a in Tm.call_args(bb) for y in subterms(norm(a))):
+                        users.append((callee_name(tm) or "").rsplit("::", 1)[-1])
+                first_only = [u for u in users if u in ("find", "position", "find_map", "any", "take_while", "skip_while", "rfind", "rposition")]
+                if first_only:
+                    ctx.bad("R2", "suffix-test-in-first-match-adaptor:%s" % first_only[0], ctx.where(cb),
+                            "the suffix test is evaluated inside Iterator::%s, which stops at the first matching suffix of a route: "
+                            "a longer suffix listed later in the same route is never compared, so the outcome depends on the order "
+                            "suffixes are written in" % first_only[0])
     ctx.floor("R2", "suffix tests in the route handler", len(ews), 1)
     loops = [cfg.natural_loop(e) for e in cfg.back_edges()]
     for bb, tm in ews:
@@ -227,3 +247,41 @@ def _ty_of_discr(body, tm):
         if "rv" in s and s["rv"]["k"] == "discr" and op_place(tm["discr"]) == s["p"]:
             return s["rv"].get("ty", "")
     return ""
+
+
+def _r6(ctx, ew):
+    P = ctx.P
+    b = P.bodies[ew]
+    T = terms(P, b)
+    cfg = cfg_of(b)
+    fam = P.family(ew)
+    names = [(callee_name(tm) or "") for x in fam for _, tm in x.calls()]
+    # idiom 1: slice::ends_with / strip_suffix on the label slices
+    if any(n.endswith("<impl [T]>::ends_with") or n.endswith("<impl [T]>::strip_suffix") for n in names):
+        ctx.ok("R6", "shorter-name-never-matches:slice-ends_with", ctx.where(b))
+        return
+    # idiom 2: an explicit length comparison guards the label-wise comparison
+    def m(d):
+        if d[0] == "bin" and d[1] in ("Ge", "Le", "Gt", "Lt"):
+            return all(any(y[0] == "call" and str(y[1]).endswith("::len") for y in subterms(x)) for x in (d[2], d[3]))
+        return False
+    guarded = False
+    for sbb, d, te, fe in bool_switches(P, b, m):
+        self_first = any(y[0] == "param" and y[1] == 1 for y in subterms(d[2]))
+        # edges on which len(self) >= len(other) holds
+        if d[1] in ("Ge", "Gt"):
+            good = te if self_first else fe
+        else:
+            good = fe if self_first else te
+        if d[1] in ("Gt", "Lt") and not self_first:
+            good = fe if d[1] == "Gt" else te
+        # the label comparison (Iterator::all / zip) must be under that edge
+        cmp_blocks = [bb for bb, tm in b.calls() if (callee_name(tm) or "").rsplit("::", 1)[-1] in ("all", "zip", "eq", "eq_ignore_ascii_case")]
+        if cmp_blocks and all(edge_dominated(cfg, good, bb) for bb in cmp_blocks):
+            guarded = True
+    zip_only = any(n.rsplit("::", 1)[-1] == "zip" for n in names)
+    ctx.check(guarded, "R6", "shorter-name-never-matches" if guarded else "shorter-name-can-match:%s" % ("zip-stops-at-shorter-list" if zip_only else "no-length-guard"),
+              ctx.where(b),
+              "a query name with fewer labels than the suffix must not match: the label-wise comparison must be guarded by "
+              "len(name) >= len(suffix) (or use slice::ends_with); zipping the two label lists stops at the shorter one, so `com` "
+              "would match the suffix `ads.example.com`")
